@@ -290,7 +290,21 @@ class Collector:
         self.stats = {}
         self.other = []
 
-    def absorb(self, verdicts, cases, model, check_sig=True):
+    def absorb(self, verdicts, cases, model, check_sig=True, binary=None):
+        # a case that got no answer in time is run again on its own with a very long deadline before it counts
+        # (the machine may be heavily loaded); only a case that still does not answer is a hang
+        slow = [v for v in verdicts if not v.get("ok") and v.get("key") == "timeout"]
+        if slow and binary:
+            again = [dict(cases[v["id"]], id=i) for i, v in enumerate(slow)]
+            self.ctx.note("%d case(s) exceeded the per-case deadline; re-running them alone" % len(slow))
+            rv = self.ctx.run_cases(binary, "walk", again, workers=min(4, len(again)), timeout_ms=1800000,
+                                    name="retry", total_timeout=4000)
+            redo = {}
+            for v, r in zip(slow, rv):
+                r = dict(r)
+                r["id"] = v["id"]
+                redo[v["id"]] = r
+            verdicts = [redo.get(v["id"], v) if (not v.get("ok") and v.get("key") == "timeout") else v for v in verdicts]
         for v in verdicts:
             for k, n in (v.get("stats") or {}).items():
                 self.stats[k] = self.stats.get(k, 0) + n
